@@ -36,6 +36,7 @@ def parse_config(config: Any) -> AccContext:
             accelerator_type = config_to_type.get(type(accelerator))
             if accelerator_type is not None:
                 accelerator_instance = accelerator_type.from_config(accelerator.accelerator)
-                context.register_accelerator(accelerator_type.name, lambda: accelerator_instance)
+                # (bind the instance now: a plain closure would see the last accelerator of the loop)
+                context.register_accelerator(accelerator_type.name, lambda instance=accelerator_instance: instance)
 
     return context
